@@ -53,6 +53,9 @@ pub struct Scenario {
     pub second_sigint_after_ms: Option<u64>,
     /// let the server run its first poll before anything else happens (else the tape decides)
     pub server_first: bool,
+    /// the first SIGINT is already due when the world starts (it can then reach the handler thread inside the very first poll)
+    #[serde(default)]
+    pub due_at_start: bool,
 }
 
 pub fn generate(_cfg: &RunCfg, _out: &mut Outcome) -> Scenario {
@@ -77,7 +80,8 @@ pub fn generate(_cfg: &RunCfg, _out: &mut Outcome) -> Scenario {
             ClientPlan { start_ms, kind }
         })
         .collect();
-    Scenario { clients, sigint_ms, second_sigint_after_ms: if t::chance(1, 5) { Some(t::pick(&[0u64, 1, 100, 10_000])) } else { None }, server_first: t::chance(1, 2) }
+    let due_at_start = sigint_ms == 0 && t::chance(1, 2);
+    Scenario { clients, sigint_ms, second_sigint_after_ms: if t::chance(1, 5) { Some(t::pick(&[0u64, 1, 100, 10_000])) } else { None }, server_first: !due_at_start && t::chance(1, 2), due_at_start }
 }
 
 pub fn run(cfg: &RunCfg, direct: Option<&serde_json::Value>) -> Outcome {
@@ -204,7 +208,7 @@ fn execute(sc: &Scenario, out: &mut Outcome) {
         simcore::poll_task_now(server);
     }
     // the handler thread is one more schedulable item between polls
-    DUE.with(|d| d.set(0));
+    DUE.with(|d| d.set(if sc.due_at_start { 1 } else { 0 }));
     simcore::with(|w| {
         w.ext_ready = Some(Box::new(|| signal::can_step() || (DUE.with(|d| d.get()) > 0 && signal::handler_installed())));
         w.ext_step = Some(Box::new(|| {
@@ -218,7 +222,9 @@ fn execute(sc: &Scenario, out: &mut Outcome) {
     // SIGINT(s): from their instant on they are due; when exactly the handler thread starts is a scheduling decision
     {
         let at = sc.sigint_ms * MS;
-        simcore::with(|w| w.at(at, Box::new(|| DUE.with(|d| d.set(d.get() + 1)))));
+        if !sc.due_at_start {
+            simcore::with(|w| w.at(at, Box::new(|| DUE.with(|d| d.set(d.get() + 1)))));
+        }
         if let Some(d) = sc.second_sigint_after_ms {
             let at2 = (sc.sigint_ms + d) * MS;
             simcore::with(|w| w.at(at2, Box::new(|| DUE.with(|d| d.set(d.get() + 1)))));
